@@ -261,12 +261,10 @@ Proof.
 Qed.
 
 Section Refine.
-  Variable sd : side.
-  Variable fx : bool.
   Variable compat : ep -> bool.
 
-  Notation po := (process_one fx compat).
-  Notation proc := (process fx compat).
+  Notation po := (process_one compat).
+  Notation proc := (process compat).
 
   Definition synced (s : st) (e : ep) : Prop :=
     (compat e = true -> In e (matched s)) /\ (compat e = false -> ~ In (ekey e) (keys (matched s))).
@@ -285,6 +283,8 @@ Section Refine.
 
   Definition InvP (s : st) : Prop := map x_key (prox s) = keys (matched s).
 
+  Definition Inv (s : st) (i : ideal) : Prop := InvC s i /\ InvP s.
+
   Lemma inv_synced : forall s i e, InvC s i -> In e (disc s) -> synced s e.
   Proof.
     intros s i e I He; split.
@@ -300,7 +300,7 @@ Section Refine.
     - assert (H : has_ep e (matched s) = true) by (apply has_ep_In; auto). rewrite H; reflexivity.
     - destruct (has_ep e (matched s)) eqn:H; [reflexivity|].
       unfold unmatch. assert (Hk : has_key (ekey e) (matched s) = false) by (apply has_key_false; auto).
-      rewrite Hk. destruct fx; reflexivity.
+      rewrite Hk. reflexivity.
   Qed.
 
   Lemma fold_synced : forall l s, (forall e, In e l -> synced s e) -> fold_left po l s = s.
@@ -312,17 +312,11 @@ Section Refine.
   Lemma process_id : forall s i, InvC s i -> proc s = s.
   Proof. intros s i I; unfold process; apply fold_synced; intros e He; eapply inv_synced; eauto. Qed.
 
-  (* which actions the faithful code handles correctly *)
-  Definition allowed (wp : bool) (i : ideal) (a : act) : Prop :=
-    fx = true \/ class_of compat i a = 0%N \/ (wp = false /\ class_of compat i a = 4%N).
-
-  Definition Inv (wp : bool) (s : st) (i : ideal) : Prop := InvC s i /\ (wp = true -> InvP s).
-
   (* ---------------------------------------------------------------- ADisc *)
-  Lemma step_disc : forall wp s i d, Inv wp s i -> allowed wp i (ADisc d) ->
-    Inv wp (proc (set_disc s (upsert d (disc s)))) (fst (istep compat i (ADisc d))).
+  Lemma step_disc : forall s i d, Inv s i ->
+    Inv (proc (set_disc s (upsert d (disc s)))) (fst (istep compat i (ADisc d))).
   Proof.
-    intros wp s i d [I P] A.
+    intros s i d [I P].
     pose proof (c_nd_disc _ _ I) as NDd. pose proof (c_nd_m _ _ I) as NDm.
     destruct (upsert_split d (disc s) NDd) as [l1 [l2 [E Hs]]].
     set (s1 := set_disc s (upsert d (disc s))).
@@ -332,7 +326,7 @@ Section Refine.
     unfold process. change (disc s1) with (upsert d (disc s)). rewrite E, fold_left_app. cbn [fold_left].
     rewrite (fold_synced l1 s1) by (intros e He; apply Sy, in_or_app; left; assumption).
     (* the one effective step *)
-    assert (Main : Inv wp (po s1 d) (fst (istep compat i (ADisc d))) /\ disc (po s1 d) = upsert d (disc s)).
+    assert (Main : Inv (po s1 d) (fst (istep compat i (ADisc d))) /\ disc (po s1 d) = upsert d (disc s)).
     { unfold process_one. rewrite Hm1. cbn [istep].
       assert (Kk : kmem (ekey d) (i_keys i) = has_key (ekey d) (matched s))
         by (rewrite <- (c_keys _ _ I); apply kmem_has_key).
@@ -342,7 +336,7 @@ Section Refine.
       - (* already matched with identical data *)
         apply has_ep_In in Hep. pose proof (c_compat _ _ I d Hep) as Hc. rewrite Hc.
         assert (Hk : has_key (ekey d) (matched s) = true) by (apply has_key_In, in_map; assumption).
-        rewrite ?Kk, ?Hk. cbn [fst]. split; [|reflexivity]. split; [|exact P].
+        rewrite Kk, Hk. cbn [fst]. split; [|reflexivity]. split; [|exact P].
         constructor; try (cbn; first [apply (c_nd_m _ _ I) | apply (c_keys _ _ I) | apply (c_cur _ _ I) | apply (c_total _ _ I) | apply (c_total_ch _ _ I) | apply (c_cur_ch _ _ I) | apply (c_compat _ _ I)]; fail).
         + cbn. apply NoDup_keys_upsert; assumption.
         + cbn. intros e He Hce. destruct (ep_eqb e d) eqn:Eed; [apply ep_eqb_eq in Eed; subst; assumption|].
@@ -355,10 +349,8 @@ Section Refine.
       - destruct (compat d) eqn:Hc.
         + (* compatible, new data *)
           destruct (has_key (ekey d) (matched s)) eqn:Hk.
-          * (* update of a matched endpoint: class 1 unless fixed *)
-            assert (Hfx : fx = true).
-            { destruct A as [A|[A|[_ A]]]; [assumption | | ]; cbn [class_of] in A; rewrite ?Kk, ?Hk, ?Hc in A; discriminate. }
-            rewrite Hfx, ?Kk, ?Hk. cbn [andb fst]. apply has_key_In in Hk. split; [|reflexivity]. split.
+          * (* QoS update of a matched endpoint *)
+            rewrite ?Kk, ?Hk. cbn [fst]. apply has_key_In in Hk. split; [|reflexivity]. split.
             -- constructor; cbn.
                ++ apply NoDup_keys_upsert; assumption.
                ++ intros e He Hce. destruct (ep_eqb e d) eqn:Eed; [apply ep_eqb_eq in Eed; subst; apply In_upsert_self|].
@@ -373,10 +365,10 @@ Section Refine.
                ++ rewrite (c_total _ _ I); lia.
                ++ rewrite (c_total_ch _ _ I); lia.
                ++ rewrite (c_cur_ch _ _ I), zlen_upsert_in by assumption; lia.
-            -- intros Hwp; unfold InvP; cbn. rewrite keys_upsert_in by assumption.
-               rewrite pkeys_upsert_in; [apply P; assumption|]. cbn [x_key]. rewrite (P Hwp); assumption.
+            -- unfold InvP; cbn. rewrite keys_upsert_in by assumption.
+               rewrite pkeys_upsert_in; [exact P|]. cbn [x_key]. rewrite P; assumption.
           * (* a new match *)
-            rewrite ?Kk, ?Hk. rewrite andb_false_r. cbn [fst]. apply has_key_false in Hk. split; [|reflexivity]. split.
+            rewrite ?Kk, ?Hk. cbn [fst]. apply has_key_false in Hk. split; [|reflexivity]. split.
             -- constructor; cbn.
                ++ apply NoDup_keys_upsert; assumption.
                ++ intros e He Hce. destruct (ep_eqb e d) eqn:Eed; [apply ep_eqb_eq in Eed; subst; apply In_upsert_self|].
@@ -391,14 +383,12 @@ Section Refine.
                ++ rewrite (c_total _ _ I); lia.
                ++ rewrite (c_total_ch _ _ I); lia.
                ++ rewrite (c_cur_ch _ _ I), zlen_upsert_notin by assumption; lia.
-            -- intros Hwp; unfold InvP; cbn. rewrite keys_upsert_notin by assumption.
-               rewrite pkeys_upsert_notin; [rewrite (P Hwp); reflexivity|]. cbn [x_key]. rewrite (P Hwp); assumption.
+            -- unfold InvP; cbn. rewrite keys_upsert_notin by assumption.
+               rewrite pkeys_upsert_notin; [rewrite P; reflexivity|]. cbn [x_key]. rewrite P; assumption.
         + (* incompatible *)
           destruct (has_key (ekey d) (matched s)) eqn:Hk.
-          * (* a matched endpoint became incompatible: class 2 unless fixed *)
-            assert (Hfx : fx = true).
-            { destruct A as [A|[A|[_ A]]]; [assumption | | ]; cbn [class_of] in A; rewrite ?Kk, ?Hk, ?Hc in A; discriminate. }
-            rewrite Hfx. unfold unmatch. rewrite Hm1, Hk. cbn [fst]. apply has_key_In in Hk. split; [|reflexivity]. split.
+          * (* a matched endpoint became incompatible *)
+            unfold unmatch. rewrite Hm1, Hk. cbn [fst]. apply has_key_In in Hk. split; [|reflexivity]. split.
             -- constructor; cbn.
                ++ apply NoDup_keys_upsert; assumption.
                ++ intros e He Hce. assert (e <> d) by (intros ->; congruence).
@@ -412,10 +402,9 @@ Section Refine.
                ++ rewrite (c_total _ _ I); lia.
                ++ rewrite (c_total_ch _ _ I); lia.
                ++ rewrite (c_cur_ch _ _ I), zlen_remove_key by assumption; lia.
-            -- intros Hwp; unfold InvP; cbn. apply pkeys_del_proxy; [apply P; assumption | assumption].
+            -- unfold InvP; cbn. apply pkeys_del_proxy; [exact P | assumption].
           * (* nothing to do *)
-            assert (Es : (if fx then unmatch fx (ekey d) s1 else s1) = s1).
-            { destruct fx; [|reflexivity]. unfold unmatch. rewrite Hm1, Hk; reflexivity. }
+            assert (Es : unmatch (ekey d) s1 = s1) by (unfold unmatch; rewrite Hm1, Hk; reflexivity).
             rewrite Es. cbn [fst]. apply has_key_false in Hk. split; [|reflexivity]. split; [|exact P].
             constructor; cbn; try (first [apply (c_nd_m _ _ I) | apply (c_cur _ _ I) | apply (c_total _ _ I) | apply (c_total_ch _ _ I) | apply (c_cur_ch _ _ I) | apply (c_compat _ _ I)]; fail).
             -- apply NoDup_keys_upsert; assumption.
@@ -430,13 +419,13 @@ Section Refine.
   Qed.
 
   (* ---------------------------------------------------------------- AGone *)
-  Lemma step_gone : forall wp s i k, Inv wp s i -> allowed wp i (AGone k) ->
-    Inv wp (proc (unmatch fx k (set_disc s (retain_not_key k (disc s))))) (fst (istep compat i (AGone k))).
+  Lemma step_gone : forall s i k, Inv s i ->
+    Inv (proc (unmatch k (set_disc s (retain_not_key k (disc s))))) (fst (istep compat i (AGone k))).
   Proof.
-    intros wp s i k [I P] A.
+    intros s i k [I P].
     pose proof (c_nd_disc _ _ I) as NDd. pose proof (c_nd_m _ _ I) as NDm.
     set (s1 := set_disc s (retain_not_key k (disc s))).
-    assert (Main : Inv wp (unmatch fx k s1) (fst (istep compat i (AGone k)))).
+    assert (Main : Inv (unmatch k s1) (fst (istep compat i (AGone k)))).
     { unfold unmatch. change (matched s1) with (matched s). cbn [istep fst].
       destruct (has_key k (matched s)) eqn:Hk.
       - apply has_key_In in Hk. split.
@@ -454,10 +443,7 @@ Section Refine.
           * rewrite (c_total _ _ I); lia.
           * rewrite (c_total_ch _ _ I); lia.
           * rewrite (c_cur_ch _ _ I), zlen_remove_key by assumption; lia.
-        + intros Hwp. assert (Hfx : fx = true).
-          { destruct A as [A|[A|[A _]]]; [assumption | | congruence]. cbn [class_of] in A.
-            rewrite <- (c_keys _ _ I), kmem_has_key in A. apply has_key_In in Hk. rewrite Hk in A; discriminate. }
-          rewrite Hfx. unfold InvP; cbn. apply pkeys_del_proxy; [apply P; assumption | assumption].
+        + unfold InvP; cbn. apply pkeys_del_proxy; [exact P | assumption].
       - apply has_key_false in Hk. split; [|exact P].
         constructor; cbn; try (first [apply (c_nd_m _ _ I) | apply (c_cur _ _ I) | apply (c_total _ _ I) | apply (c_total_ch _ _ I) | apply (c_cur_ch _ _ I) | apply (c_compat _ _ I)]; fail).
         + apply NoDup_keys_filter; assumption.
@@ -486,90 +472,55 @@ Section Refine.
     rewrite E. unfold keys, retain_not_prefix. apply (map_filter_parallel x_key ekey (fun k => negb (fst k =? p))). exact H.
   Qed.
 
-  Lemma zlen_filter_le : forall {A} (f : A -> bool) l, zlen (filter f l) <= zlen l.
+  Lemma inv_remove_part : forall s i p, Inv s i ->
+    Inv (remove_part p s)
+        (mkIdeal (filter (fun k => negb (fst k =? p)) (i_keys i)) (i_total i) (i_rt i) (i_rc i)).
   Proof.
-    intros A f l; unfold zlen; induction l as [|x t IH]; cbn [filter length]; [lia|].
-    destruct (f x); cbn [length]; lia.
-  Qed.
-
-  Lemma inv_remove_part : forall wp s i p, Inv wp s i ->
-    (fx = true \/ existsb (fun k => fst k =? p) (i_keys i) = false) ->
-    Inv wp (remove_part sd fx p s)
-       (mkIdeal (filter (fun k => negb (fst k =? p)) (i_keys i)) (i_total i) (i_rt i) (i_rc i)).
-  Proof.
-    intros wp s i p [I P] A.
+    intros s i p [I P].
     pose proof (c_nd_disc _ _ I) as NDd. pose proof (c_nd_m _ _ I) as NDm.
     unfold remove_part. cbn [parts disc matched prox total total_ch cur cur_ch set_parts].
-    destruct fx eqn:Hfx.
-    - split.
-      + constructor; cbn.
-        * apply NoDup_keys_filter; assumption.
-        * intros e He Hce. unfold retain_not_prefix in *; apply filter_In in He. apply filter_In; split; [apply (c_sync _ _ I); tauto | tauto].
-        * intros m Hm. unfold retain_not_prefix in *; apply filter_In in Hm. apply filter_In; split; [apply (c_in_disc _ _ I); tauto | tauto].
-        * intros m Hm. unfold retain_not_prefix in Hm; apply filter_In in Hm. apply (c_compat _ _ I); tauto.
-        * apply NoDup_keys_filter; assumption.
-        * rewrite keys_retain_prefix, (c_keys _ _ I); reflexivity.
-        * reflexivity.
-        * apply (c_total _ _ I).
-        * apply (c_total_ch _ _ I).
-        * rewrite (c_cur_ch _ _ I); lia.
-      + intros Hwp; unfold InvP; cbn. apply del_proxies_prefix. apply P; assumption.
-    - destruct A as [A|A]; [discriminate|].
-      assert (NoP : forall m, In m (matched s) -> (e_p m =? p) = false).
-      { intros m Hm. destruct (e_p m =? p) eqn:Ep; [|reflexivity].
-        assert (Hex : existsb (fun k => fst k =? p) (i_keys i) = true).
-        { apply existsb_exists. exists (ekey m). split; [rewrite <- (c_keys _ _ I); unfold keys; apply in_map; assumption | exact Ep]. }
-        congruence. }
-      assert (Em : retain_not_prefix p (matched s) = matched s).
-      { unfold retain_not_prefix; apply filter_all. intros m Hm. rewrite (NoP m Hm); reflexivity. }
-      assert (Ek : filter (fun k => negb (fst k =? p)) (i_keys i) = i_keys i).
-      { apply filter_all. intros k Hk. destruct (fst k =? p) eqn:Ep; [|reflexivity].
-        assert (existsb (fun k => fst k =? p) (i_keys i) = true) by (apply existsb_exists; exists k; tauto). congruence. }
-      assert (Ex : del_proxies_of p (matched s) (prox s) = prox s).
-      { unfold del_proxies_of; apply filter_all. intros x Hx. apply negb_true_iff.
-        destruct (existsb _ (matched s)) eqn:Eb; [|reflexivity]. apply existsb_exists in Eb.
-        destruct Eb as [d [Hd Ed]]. apply andb_true_iff in Ed. rewrite (NoP d Hd) in Ed. destruct Ed; discriminate. }
-      rewrite Ek, Ex. assert (Em' : match sd with Wr => retain_not_prefix p (matched s) | Rd => matched s end = matched s)
-        by (destruct sd; [exact Em | reflexivity]).
-      rewrite Em'. split; [|exact P].
-      constructor; cbn; first [apply (c_nd_disc _ _ I) | apply (c_sync _ _ I) | apply (c_in_disc _ _ I) | apply (c_nd_m _ _ I) | apply (c_keys _ _ I) | apply (c_cur _ _ I) | apply (c_total _ _ I) | apply (c_total_ch _ _ I) | apply (c_cur_ch _ _ I) | apply (c_compat _ _ I)].
+    split.
+    - constructor; cbn.
+      + apply NoDup_keys_filter; assumption.
+      + intros e He Hce. unfold retain_not_prefix in *; apply filter_In in He. apply filter_In; split; [apply (c_sync _ _ I); tauto | tauto].
+      + intros m Hm. unfold retain_not_prefix in *; apply filter_In in Hm. apply filter_In; split; [apply (c_in_disc _ _ I); tauto | tauto].
+      + intros m Hm. unfold retain_not_prefix in Hm; apply filter_In in Hm. apply (c_compat _ _ I); tauto.
+      + apply NoDup_keys_filter; assumption.
+      + rewrite keys_retain_prefix, (c_keys _ _ I); reflexivity.
+      + reflexivity.
+      + apply (c_total _ _ I).
+      + apply (c_total_ch _ _ I).
+      + rewrite (c_cur_ch _ _ I); lia.
+    - unfold InvP; cbn. apply del_proxies_prefix. exact P.
   Qed.
 
-  Lemma inv_set_parts : forall wp s i l, Inv wp s i -> Inv wp (set_parts s l) i.
+  Lemma inv_set_parts : forall s i l, Inv s i -> Inv (set_parts s l) i.
   Proof.
-    intros wp s i l [I P]; split; [|exact P].
+    intros s i l [I P]; split; [|exact P].
     constructor; cbn; first [apply (c_nd_disc _ _ I) | apply (c_sync _ _ I) | apply (c_in_disc _ _ I) | apply (c_nd_m _ _ I) | apply (c_keys _ _ I) | apply (c_cur _ _ I) | apply (c_total _ _ I) | apply (c_total_ch _ _ I) | apply (c_cur_ch _ _ I) | apply (c_compat _ _ I)].
   Qed.
 
-  Lemma allowed_part : forall wp i p, allowed wp i (APartGone p) \/ allowed wp i (AStale p) ->
-    fx = true \/ existsb (fun k => fst k =? p) (i_keys i) = false.
-  Proof.
-    intros wp i p [A|A]; (destruct A as [A|[A|[_ A]]]; [left; assumption | right | right]);
-      cbn [class_of] in A; destruct (existsb (fun k : Z * Z => fst k =? p) (i_keys i)); try reflexivity; discriminate.
-  Qed.
-
   (* ---------------------------------------------------------------- one step *)
-  Lemma step_refines : forall wp s i a, Inv wp s i -> allowed wp i a ->
-    Inv wp (fst (step sd fx compat s a)) (fst (istep compat i a)) /\
-    snd (step sd fx compat s a) = snd (istep compat i a).
+  Lemma step_refines : forall s i a, Inv s i ->
+    Inv (fst (step compat s a)) (fst (istep compat i a)) /\
+    snd (step compat s a) = snd (istep compat i a).
   Proof.
-    intros wp s i a I A. destruct a as [p|d|k|p|p| |].
+    intros s i a I. destruct a as [p|d|k|p|p| |].
     - (* APart *) cbn [step istep fst snd]. split; [|reflexivity].
       set (l := if existsb (Z.eqb p) (parts s) then parts s else parts s ++ [p]).
-      pose proof (inv_set_parts wp s i l I) as I1. rewrite (process_id _ _ (proj1 I1)). exact I1.
+      pose proof (inv_set_parts s i l I) as I1. rewrite (process_id _ _ (proj1 I1)). exact I1.
     - (* ADisc *) cbn [step fst snd]. split; [apply step_disc; assumption|].
       cbn [istep]. destruct (compat d); [destruct (kmem _ _)|]; reflexivity.
     - (* AGone *) cbn [step fst snd]. split; [apply step_gone; assumption | reflexivity].
     - (* APartGone *) cbn [step istep fst snd]. split; [|reflexivity].
-      pose proof (inv_remove_part wp s i p I (allowed_part wp i p (or_introl A))) as I1.
+      pose proof (inv_remove_part s i p I) as I1.
       rewrite (process_id _ _ (proj1 I1)). exact I1.
     - (* AStale *) cbn [step istep fst snd]. split; [|reflexivity].
-      rewrite (process_id _ _ (proj1 I)).
-      exact (inv_remove_part wp s i p I (allowed_part wp i p (or_intror A))).
+      rewrite (process_id _ _ (proj1 I)). exact (inv_remove_part s i p I).
     - (* ATick *) cbn [step istep fst snd]. split; [|reflexivity]. rewrite (process_id _ _ (proj1 I)). exact I.
     - (* ARead *) destruct I as [I P]. cbn [step read istep fst snd].
-      assert (I1 : Inv wp (mkSt (parts s) (disc s) (matched s) (prox s) (total s) 0 (cur s) 0)
-                         (mkIdeal (i_keys i) (i_total i) (i_total i) (zlen (i_keys i)))).
+      assert (I1 : Inv (mkSt (parts s) (disc s) (matched s) (prox s) (total s) 0 (cur s) 0)
+                      (mkIdeal (i_keys i) (i_total i) (i_total i) (zlen (i_keys i)))).
       { split; [|exact P]. constructor; cbn; try first [apply (c_nd_disc _ _ I) | apply (c_sync _ _ I) | apply (c_in_disc _ _ I) | apply (c_nd_m _ _ I) | apply (c_keys _ _ I) | apply (c_cur _ _ I) | apply (c_total _ _ I) | apply (c_compat _ _ I)].
         - lia.
         - rewrite <- (c_keys _ _ I); unfold keys; rewrite zlen_map; lia. }
@@ -577,172 +528,45 @@ Section Refine.
       rewrite (c_total _ _ I), (c_total_ch _ _ I), (c_cur _ _ I), (c_cur_ch _ _ I), <- (c_keys _ _ I); unfold keys; rewrite zlen_map. reflexivity.
   Qed.
 
-  Lemma first_class_allowed : forall wp i a t,
-    fx = true \/ first_class compat wp i (a :: t) = 0%N ->
-    allowed wp i a /\ (fx = true \/ first_class compat wp (fst (istep compat i a)) t = 0%N).
+  Theorem run_refines : forall l s i, Inv s i ->
+    Inv (fst (run compat s l)) (fst (irun compat i l)) /\
+    snd (run compat s l) = snd (irun compat i l).
   Proof.
-    intros wp i a t [H|H]; [split; [left; assumption | left; assumption]|].
-    cbn [first_class] in H.
-    destruct (N.eqb (class_of compat i a) 0) eqn:E0; cbn [negb andb] in H.
-    - apply N.eqb_eq in E0. split; [right; left; assumption | right; assumption].
-    - destruct wp; cbn [orb] in H.
-      + rewrite H in E0; discriminate.
-      + destruct (N.eqb (class_of compat i a) 4) eqn:E4; cbn [negb] in H.
-        * apply N.eqb_eq in E4. split; [right; right; split; [reflexivity | assumption] | right; assumption].
-        * rewrite H in E0; discriminate.
-  Qed.
-
-  Theorem run_refines : forall wp l s i, Inv wp s i ->
-    (fx = true \/ first_class compat wp i l = 0%N) ->
-    Inv wp (fst (run sd fx compat s l)) (fst (irun compat i l)) /\
-    snd (run sd fx compat s l) = snd (irun compat i l).
-  Proof.
-    intros wp l; induction l as [|a t IH]; intros s i I H; cbn [run irun].
+    intros l; induction l as [|a t IH]; intros s i I; cbn [run irun].
     - split; [exact I | reflexivity].
-    - destruct (first_class_allowed wp i a t H) as [A H'].
-      destruct (step_refines wp s i a I A) as [I1 O1].
-      destruct (step sd fx compat s a) as [s1 o1] eqn:Es. destruct (istep compat i a) as [i1 o1'] eqn:Ei.
-      cbn [fst snd] in *. destruct (IH s1 i1 I1 H') as [I2 O2].
-      destruct (run sd fx compat s1 t) as [s2 os] eqn:Er. destruct (irun compat i1 t) as [i2 os'] eqn:Eir.
+    - destruct (step_refines s i a I) as [I1 O1].
+      destruct (step compat s a) as [s1 o1] eqn:Es. destruct (istep compat i a) as [i1 o1'] eqn:Ei.
+      cbn [fst snd] in *. destruct (IH s1 i1 I1) as [I2 O2].
+      destruct (run compat s1 t) as [s2 os] eqn:Er. destruct (irun compat i1 t) as [i2 os'] eqn:Eir.
       cbn [fst snd] in *. split; [exact I2|]. subst. reflexivity.
   Qed.
 
-  Lemma inv0 : forall wp, Inv wp st0 ideal0.
-  Proof. intros wp; split; [constructor; cbn; try constructor; try tauto; try reflexivity | intros _; reflexivity]. Qed.
+  Lemma inv0 : Inv st0 ideal0.
+  Proof. split; [constructor; cbn; try constructor; try tauto; try reflexivity | reflexivity]. Qed.
 End Refine.
 
 (* ------------------------------------------------------------------ the pinned statements *)
-Definition agrees (with_proxies : bool) (r : st * list status) (ir : ideal * list status) : Prop :=
-  snd r = snd ir /\
-  keys (matched (fst r)) = i_keys (fst ir) /\
-  cur (fst r) = zlen (matched (fst r)) /\
-  total (fst r) = i_total (fst ir) /\
-  NoDup (keys (matched (fst r))) /\
-  (with_proxies = true -> map x_key (prox (fst r)) = keys (matched (fst r))).
-
-Lemma agrees_of_inv : forall compat wp r ir,
-  Inv compat wp (fst r) (fst ir) -> snd r = snd ir -> agrees wp r ir.
-Proof.
-  intros compat wp r ir [I P] O. unfold agrees. repeat split; try assumption.
-  - apply (c_keys _ _ _ I).
-  - apply (c_cur _ _ _ I).
-  - apply (c_total _ _ _ I).
-  - apply (c_nd_m _ _ _ I).
-Qed.
-
-Theorem fixed_refines_spec : forall sd compat acts,
-  agrees true (run sd true compat st0 acts) (irun compat ideal0 acts).
-Proof.
-  intros sd compat acts.
-  destruct (run_refines sd true compat true acts st0 ideal0 (inv0 compat true) (or_introl eq_refl)) as [I O].
-  eapply agrees_of_inv; eauto.
-Qed.
-
-Theorem faithful_counts_outside_classes : forall sd compat acts,
-  first_class compat false ideal0 acts = 0%N ->
-  agrees false (run sd false compat st0 acts) (irun compat ideal0 acts).
-Proof.
-  intros sd compat acts H.
-  destruct (run_refines sd false compat false acts st0 ideal0 (inv0 compat false) (or_intror H)) as [I O].
-  eapply agrees_of_inv; eauto.
-Qed.
-
-Theorem faithful_proxies_outside_classes : forall sd compat acts,
-  first_class compat true ideal0 acts = 0%N ->
-  agrees true (run sd false compat st0 acts) (irun compat ideal0 acts).
-Proof.
-  intros sd compat acts H.
-  destruct (run_refines sd false compat true acts st0 ideal0 (inv0 compat true) (or_intror H)) as [I O].
-  eapply agrees_of_inv; eauto.
-Qed.
-
-(* ------------------------------------------------------------------ witnesses: each class
-   refutes the property on the faithful model (reader deadline >= 10 is compatible) *)
-Definition wcompat (d : ep) : bool := 10 <=? e_dl d.
-Definition w_r : ep := mkEp 1 7 0 20 0.
-
-Lemma class1_refuted : exists acts,
-  first_class wcompat false ideal0 acts = 1%N /\
-  snd (run Wr false wcompat st0 acts) <> snd (irun wcompat ideal0 acts) /\
-  snd (run Rd false wcompat st0 acts) <> snd (irun wcompat ideal0 acts).
-Proof.
-  exists [APart 1; ADisc w_r; ARead; ADisc (mkEp 1 7 0 20 5); ARead].
-  split; [vm_compute; reflexivity | split; vm_compute; intros H; discriminate].
-Qed.
-
-Lemma class2_refuted : exists acts,
-  first_class wcompat false ideal0 acts = 2%N /\
-  snd (run Wr false wcompat st0 acts) <> snd (irun wcompat ideal0 acts) /\
-  snd (run Rd false wcompat st0 acts) <> snd (irun wcompat ideal0 acts).
-Proof.
-  exists [APart 1; ADisc w_r; ARead; ADisc (mkEp 1 7 0 5 0); ARead].
-  split; [vm_compute; reflexivity | split; vm_compute; intros H; discriminate].
-Qed.
-
-Lemma class3_refuted : exists acts,
-  first_class wcompat false ideal0 acts = 3%N /\
-  snd (run Wr false wcompat st0 acts) <> snd (irun wcompat ideal0 acts) /\
-  snd (run Rd false wcompat st0 acts) <> snd (irun wcompat ideal0 acts).
-Proof.
-  exists [APart 1; ADisc w_r; ARead; AStale 1; ATick; ARead].
-  split; [vm_compute; reflexivity | split; vm_compute; intros H; discriminate].
-Qed.
-
-Lemma class4_refuted : exists acts,
-  first_class wcompat true ideal0 acts = 4%N /\
-  first_class wcompat false ideal0 acts = 0%N /\
-  map x_key (prox (fst (run Wr false wcompat st0 acts))) <> keys (matched (fst (run Wr false wcompat st0 acts))).
-Proof.
-  exists [APart 1; ADisc w_r; AGone (1, 7)].
-  split; [vm_compute; reflexivity | split; [vm_compute; reflexivity | vm_compute; intros H; discriminate]].
-Qed.
-
-(* non-vacuity: a clean history with two matches, one incompatible endpoint, a deletion and a
-   graceful departure is outside all classes and produces non-trivial statuses *)
-Example clean_history_nonvacuous :
-  let acts := [APart 1; APart 2; ADisc w_r; ADisc (mkEp 2 3 0 30 1); ADisc (mkEp 2 4 0 5 1); ARead;
-               AGone (2, 3); AGone (2, 4); APartGone 2; ARead] in
-  first_class wcompat false ideal0 acts = 0%N /\
-  snd (run Wr false wcompat st0 acts) = [(2, 2, 2, 2); (2, 0, 1, -1)].
-Proof. split; vm_compute; reflexivity. Qed.
-
-(* the same three statements without the `agrees` wrapper *)
-Lemma fixed_refines_spec_clean : forall sd compat acts,
-  let r := run sd true compat st0 acts in
+Theorem counts_track_matched_set : forall compat acts,
+  let r := run compat st0 acts in
   let ir := irun compat ideal0 acts in
   snd r = snd ir /\ keys (matched (fst r)) = i_keys (fst ir) /\ cur (fst r) = zlen (matched (fst r)) /\
   total (fst r) = i_total (fst ir) /\ NoDup (keys (matched (fst r))) /\
   map x_key (prox (fst r)) = keys (matched (fst r)).
 Proof.
-  intros sd compat acts. destruct (fixed_refines_spec sd compat acts) as [A [B [C [D [E F]]]]].
-  cbv zeta. repeat split; auto.
+  intros compat acts. destruct (run_refines compat acts st0 ideal0 (inv0 compat)) as [[I P] O].
+  cbv zeta. repeat split.
+  - exact O.
+  - apply (c_keys _ _ _ I).
+  - apply (c_cur _ _ _ I).
+  - apply (c_total _ _ _ I).
+  - apply (c_nd_m _ _ _ I).
+  - exact P.
 Qed.
-Lemma faithful_counts_clean : forall sd compat acts,
-  first_class compat false ideal0 acts = 0%N ->
-  let r := run sd false compat st0 acts in
-  let ir := irun compat ideal0 acts in
-  snd r = snd ir /\ keys (matched (fst r)) = i_keys (fst ir) /\ cur (fst r) = zlen (matched (fst r)) /\
-  total (fst r) = i_total (fst ir) /\ NoDup (keys (matched (fst r))).
-Proof.
-  intros sd compat acts H. destruct (faithful_counts_outside_classes sd compat acts H) as [A [B [C [D [E F]]]]].
-  cbv zeta. repeat split; auto.
-Qed.
-Lemma faithful_proxies_clean : forall sd compat acts,
-  first_class compat true ideal0 acts = 0%N ->
-  let r := run sd false compat st0 acts in
-  map x_key (prox (fst r)) = keys (matched (fst r)).
-Proof.
-  intros sd compat acts H. destruct (faithful_proxies_outside_classes sd compat acts H) as [A [B [C [D [E F]]]]].
-  cbv zeta. auto.
-Qed.
-(* a history outside classes 1-4 is in particular outside classes 1-3 *)
-Lemma first_class_true_false : forall compat l i, first_class compat true i l = 0%N -> first_class compat false i l = 0%N.
-Proof.
-  intros compat l; induction l as [|a t IH]; intros i H; cbn [first_class] in *; [reflexivity|].
-  destruct (N.eqb (class_of compat i a) 0) eqn:E0; cbn [negb andb orb] in *.
-  - apply IH; assumption.
-  - rewrite H in E0; discriminate.
-Qed.
+
+(* the same at every point of a history (prefix closed): after any prefix the current state agrees *)
+Corollary current_count_is_length : forall compat acts,
+  cur (fst (run compat st0 acts)) = zlen (matched (fst (run compat st0 acts))).
+Proof. intros compat acts. apply (counts_track_matched_set compat acts). Qed.
 
 Lemma spec_read_and_match : forall compat i d,
   snd (istep compat i ARead) =
@@ -759,3 +583,18 @@ Proof.
   - intros Hc Hk; rewrite Hc, Hk; cbn; split; reflexivity.
   - intros Hc Hk; rewrite Hc, Hk; reflexivity.
 Qed.
+
+(* regression examples: the four histories that used to break the property (QoS update of a matched
+   endpoint, update to incompatible QoS, participant expiry, deletion) and a mixed history
+   (reader deadline >= 10 is compatible) *)
+Definition wcompat (d : ep) : bool := 10 <=? e_dl d.
+Definition w_r : ep := mkEp 1 7 0 20 0.
+
+Example regression_histories :
+  snd (run wcompat st0 [APart 1; ADisc w_r; ARead; ADisc (mkEp 1 7 0 20 5); ARead]) = [(1, 1, 1, 1); (1, 0, 1, 0)] /\
+  snd (run wcompat st0 [APart 1; ADisc w_r; ARead; ADisc (mkEp 1 7 0 5 0); ARead]) = [(1, 1, 1, 1); (1, 0, 0, -1)] /\
+  snd (run wcompat st0 [APart 1; ADisc w_r; ARead; AStale 1; ATick; ARead]) = [(1, 1, 1, 1); (1, 0, 0, -1)] /\
+  prox (fst (run wcompat st0 [APart 1; ADisc w_r; AGone (1, 7)])) = [] /\
+  snd (run wcompat st0 [APart 1; APart 2; ADisc w_r; ADisc (mkEp 2 3 0 30 1); ADisc (mkEp 2 4 0 5 1); ARead;
+                        AGone (2, 3); AGone (2, 4); APartGone 2; ARead]) = [(2, 2, 2, 2); (2, 0, 1, -1)].
+Proof. repeat split; vm_compute; reflexivity. Qed.
